@@ -860,7 +860,110 @@ class int_(metaclass=_IntMeta):
     def __new__(cls, x=0, base=None):
         if isinstance(x, (ZInt, SInt)):
             return x
+        if getattr(x, "_sstr_", False) and base in (None, 10):
+            return _parse_int(x)
         return int(x) if base is None else int(x, base)
+
+
+_UNI = {}
+
+
+def _unicode_classes():
+    """(ranges of non-ASCII decimal digits as (lo, hi) with digit = cp - lo), (non-ASCII whitespace code points),
+    computed from this interpreter's unicodedata (what int() itself uses)"""
+    if not _UNI:
+        import unicodedata
+        ranges, cur = [], None
+        ws = []
+        for cp in range(0x80, 0x110000):
+            ch = chr(cp)
+            d = unicodedata.decimal(ch, None)
+            if d is not None:
+                if cur is not None and cp == cur[1] + 1 and d == cur[2] + 1:
+                    cur = (cur[0], cp, d)
+                else:
+                    if cur is not None:
+                        ranges.append(cur)
+                    cur = (cp, cp, d) if d == 0 else None
+                    if d != 0:
+                        ranges.append((cp, cp, d, "single"))
+            if ch.isspace():
+                ws.append(cp)
+        if cur is not None:
+            ranges.append(cur)
+        _UNI["digits"] = ranges
+        _UNI["ws"] = ws
+    return _UNI["digits"], _UNI["ws"]
+
+
+def _classify_int_char(ch):
+    """token of one character for int(): ('d', value term) | '_' | '+' | '-' | 'ws' | 'x'"""
+    if isinstance(ch, str):
+        if ch == "_":
+            return "_"
+        if ch in "+-":
+            return ch
+        if ch.isspace():
+            return "ws"
+        import unicodedata
+        d = unicodedata.decimal(ch, None)
+        return ("d", z3.IntVal(d)) if d is not None else "x"
+    if bool(SBool(z3.And(z3.UGE(ch, 48), z3.ULE(ch, 57)))):
+        return ("d", z3.BV2Int(ch, False) - 48)
+    if bool(SBool(ch == 95)):
+        return "_"
+    if bool(SBool(ch == 43)):
+        return "+"
+    if bool(SBool(ch == 45)):
+        return "-"
+    digits, ws = _unicode_classes()
+    aws = [9, 10, 11, 12, 13, 28, 29, 30, 31, 32]
+    if bool(SBool(z3.Or(*[ch == c for c in aws + ws]))):
+        return "ws"
+    terms = []
+    for r in digits:
+        if len(r) == 4:
+            terms.append((ch == r[0], z3.IntVal(r[2])))
+        else:
+            terms.append((z3.And(z3.UGE(ch, r[0]), z3.ULE(ch, r[1])), z3.BV2Int(ch, False) - r[0]))
+    if bool(SBool(z3.Or(*[t for t, v in terms]))):
+        val = z3.IntVal(0)
+        for t, v in terms:
+            val = z3.If(t, v, val)
+        return ("d", val)
+    return "x"
+
+
+def _parse_int(s):
+    """int(text, 10) for symbolic text, modelling CPython exactly: surrounding (Unicode) whitespace, one sign, ASCII and
+    Unicode decimal digits, single underscores between digits"""
+    toks = [_classify_int_char(ch) for ch in s.c]
+    err = ValueError("invalid literal for int() with base 10")
+    i, j = 0, len(toks)
+    while i < j and toks[i] == "ws":
+        i += 1
+    while j > i and toks[j - 1] == "ws":
+        j -= 1
+    toks = toks[i:j]
+    neg = False
+    if toks and toks[0] in ("+", "-"):
+        neg = toks[0] == "-"
+        toks = toks[1:]
+    if not toks:
+        raise err
+    val = z3.IntVal(0)
+    prev = None
+    for t in toks:
+        if isinstance(t, tuple):
+            val = val * 10 + t[1]
+            prev = "d"
+        elif t == "_" and prev == "d":
+            prev = "_"
+        else:
+            raise err
+    if prev != "d":
+        raise err
+    return ZInt(z3.simplify(-val if neg else val))
 
 
 def model_int(m, e):
